@@ -318,6 +318,29 @@ Qed.
 
 (* class 8 (C12-F8, what remains of F5): .text = None on a fresh instance leaves xsi:type="" without nil marker; an
    empty type NAME is not a declared type, parsing marks the element nil *)
+(* C12-F10: set_type("xs:anyType"); set_text(None) keeps None as the text member; parsing delivers "" *)
+Lemma anytype_none_refuted :
+  exists xa, av_build (Recipe VNone [] [] [OSetType "xs:anyType"; OSetText VNone]) = TOk xa None
+             /\ av_known_class [] xa None = 10
+             /\ o_text (harvest b_table 0%N (ser b_table (av_obj 0%N [] xa None))) = Some ""%string
+             /\ ser b_table (harvest b_table 0%N (ser b_table (av_obj 0%N [] xa None))) = ser b_table (av_obj 0%N [] xa None).
+Proof. eexists. split; [vm_compute; reflexivity|]. split; [vm_compute; reflexivity|]. split; vm_compute; reflexivity. Qed.
+
+(* ... and no document at all is parsed into an AttributeValue whose text member is None *)
+Lemma av_parse_text_some T c ci t :
+  class_at T c = Some ci -> c_kind ci = KAttrValue -> o_text (harvest T c t) <> None.
+Proof.
+  intros Hc Hk. destruct t as [g a x kids]. cbn [harvest]. rewrite Hc. unfold assemble. rewrite Hk.
+  destruct (av_finish _ _ _ _) as [xa tx| |] eqn:E; cbn [o_text]; try discriminate.
+  unfold av_finish in E. destruct (av_retyped _ _ _ _); [inversion E; discriminate|].
+  unfold av_finish_f5v0 in E.
+  repeat match type of E with
+         | (if ?b then _ else _) = _ => destruct b
+         | (let '(_, _) := ?p in _) = _ => destruct p
+         | match ?c with _ => _ end = _ => destruct c
+         end; inversion E; discriminate.
+Qed.
+
 Lemma text_none_refuted :
   exists xa tx, av_build (Recipe VNone [] [] [OSetText VNone]) = TOk xa tx
                 /\ av_untyped_empty [] xa tx = true
